@@ -1906,6 +1906,20 @@ def run(tier):
                        or m_.name in ('smtlib', 'mutator_utils')},
               'the proposals built from the second traversal are empty or '
               'truncated terms')
+    # proposals are pickled on their way to the worker that applies them
+    # (hierarchical tasks, parallel ddmin): the hand-written pickle format
+    # must carry leaf texts verbatim, else what is applied is not what was
+    # proposed (shared with C12.R1, text part)
+    from . import c12 as _c12
+    sub12 = Check('C12', 'other', tier, [], [])
+    chk.guard(_c12.rule_r1, sub12, prog)
+    Check.restrict(sub12, lambda wh, what: not any(
+        k in what for k in ('hash width', '(id, hash) restored',
+                            'slots restored', "b'(': fields")))
+    chk.adopt('C15.R10', 'the leaf texts of a proposal cross the process '
+              'boundary verbatim: the pickle writer and reader agree on '
+              'tags, lengths (in bytes), field order and codec (shared with '
+              'C12.R1)', sub12)
     extra = None
     if tier == 'thorough':
         from .. import selftest
